@@ -478,7 +478,7 @@ pub fn run(tier: Tier, seed: u64, replay: Option<&std::path::Path>) -> i32 {
         tier,
         seed,
         replay,
-        (640, 6000),
+        (640, 12000),
         25,
         strategy,
         run_case,
